@@ -80,6 +80,13 @@ def run(chk):
     probe = rng.integers(-16, 17, size=(3, nf)) / 4.0
 
     def sspor_at(stage):
+        if stage == 3:      # a model whose only fit was rejected is still unfitted
+            m = SSPOR(n_sensors=nf + 3)
+            try:
+                impl.quiet(m.fit, X, quiet=True)
+            except ValueError:
+                pass
+            return m
         m = SSPOR(n_sensors=5)
         if stage >= 1:
             impl.quiet(m.fit, X, quiet=True, seed=1)
@@ -91,8 +98,8 @@ def run(chk):
     # ---- SSPOR
     for v in values(nf):
         rows.append((f"SSPOR(n_sensors={v})", f"g_sspor_ctor {coq_pv(v)}", lambda v=v: SSPOR(n_sensors=pyv(v)), True))
-    for stage in (0, 1, 2):
-        fitted = "true" if stage else "false"
+    for stage in (0, 1, 2, 3):
+        fitted = "true" if stage in (1, 2) else "false"
         ns = 5 if stage < 2 else 4
         have = 0 if stage == 0 else nrows
         for v in values(nf):
@@ -118,9 +125,9 @@ def run(chk):
                 rows.append((f"SSPOR[{stage}].reconstruction_error({lab})", f"g_sspor_recon_error {fitted} {nf} {cq}",
                              lambda stage=stage, mk=mk: sspor_at(stage).reconstruction_error(mk(nf)), True))
         for g in ("get_selected_sensors", "get_all_sensors"):
-            rows.append((f"SSPOR[{stage}].{g}()", f"g_sspor_getter {fitted}", lambda stage=stage, g=g: getattr(sspor_at(stage), g)(), stage == 0))
+            rows.append((f"SSPOR[{stage}].{g}()", f"g_sspor_getter {fitted}", lambda stage=stage, g=g: getattr(sspor_at(stage), g)(), stage in (0, 3)))
         for g in ("selected_sensors", "all_sensors"):
-            rows.append((f"SSPOR[{stage}].{g}", f"g_sspor_getter {fitted}", lambda stage=stage, g=g: getattr(sspor_at(stage), g), stage == 0))
+            rows.append((f"SSPOR[{stage}].{g}", f"g_sspor_getter {fitted}", lambda stage=stage, g=g: getattr(sspor_at(stage), g), stage in (0, 3)))
     for n in (1, nf, nf + 1, nf + 7):
         rows.append((f"SSPOR(n_sensors={n}).fit", f"g_sspor_fit_count {n} {nf}", lambda n=n: SSPOR(n_sensors=n).fit(X, quiet=True), True))
 
